@@ -89,6 +89,7 @@ def run(ctx):
     ctx.assumptions += ["all mutation of stores goes through StoreFor::insert/remove and the callbacks (established by C01.OWN and the pub(crate) visibility of the fields)"]
 
     sorted_rule(ctx, syn)
+    row_rule(ctx, syn)
 
     r_own = ctx.rule("C01.OWN", "index, id-map, store and position-index fields are written only by their sanctioned writers")
     n = own_rule(ctx, prog, r_own)
@@ -590,3 +591,126 @@ def justify(arg, f, line, env, depth):
                 return justify(nd["e"], f, line, env, depth + 1)
         return "unknown:`%s` has no visible origin" % nm, False
     return "unknown:`%s` is not a recognised ordered source" % src[:40], False
+
+
+# ---------------------------------------------------------------------- ROW
+def row_rule(ctx, syn):
+    """rows of the reverse indices: insertion is idempotent for the newest handle, appends keep the
+    handle order, removal keeps the order of the remaining entries (finite evaluation of the extracted
+    insert / remove of RelationMap and RelationBTreeMap)"""
+    from synq import unparse
+    from formula import Evaluator, Unknown, Panic, StructVal, some, is_some
+    from props.c10 import closure_call
+    r = ctx.rule("C01.ROW", "a row of a reverse index holds each referrer once, in handle order, and removal preserves that order")
+    hooks = {}
+    hooks["as_usize"] = lambda ev, recv, args, node, env: recv if isinstance(recv, int) else NotImplemented
+    hooks["last"] = lambda ev, recv, args, node, env: (some(recv[-1]) if recv else None) if isinstance(recv, list) else NotImplemented
+    hooks["contains"] = lambda ev, recv, args, node, env: (args[0] in recv) if isinstance(recv, list) else NotImplemented
+
+    def resize_with(ev, recv, args, node, env):
+        if isinstance(recv, list):
+            while len(recv) < args[0]:
+                recv.append([])
+            return ()
+        return NotImplemented
+    hooks["resize_with"] = resize_with
+
+    def get_mut(ev, recv, args, node, env):
+        if isinstance(recv, list):
+            return some(recv[args[0]]) if 0 <= args[0] < len(recv) else None
+        if isinstance(recv, dict) and not isinstance(recv, StructVal):
+            return some(recv[args[0]]) if args[0] in recv else None
+        return NotImplemented
+    hooks["get_mut"] = get_mut
+    hooks["get"] = get_mut
+    hooks["contains_key"] = lambda ev, recv, args, node, env: (args[0] in recv) if isinstance(recv, dict) and not isinstance(recv, StructVal) else NotImplemented
+
+    def h_insert(ev, recv, args, node, env):
+        if isinstance(recv, dict) and not isinstance(recv, StructVal) and len(args) == 2:
+            recv[args[0]] = args[1]
+            return None
+        if isinstance(recv, list) and len(args) == 2 and isinstance(args[0], int):
+            recv.insert(args[0], args[1])
+            return ()
+        return NotImplemented
+    hooks["insert"] = h_insert
+    hooks["macro:vec"] = lambda ev, node, env: [ev.eval(a, env) for a in (node.get("args") or [])]
+    hooks["unwrap"] = lambda ev, recv, args, node, env: recv[1] if is_some(recv) else NotImplemented
+
+    def position(ev, recv, args, node, env):
+        if isinstance(recv, list) and args and isinstance(args[0], tuple) and args[0][0] == "closure":
+            for i, x in enumerate(recv):
+                if closure_call(ev, args[0], [x], env):
+                    return some(i)
+            return None
+        return NotImplemented
+    hooks["position"] = position
+
+    def h_remove(ev, recv, args, node, env):
+        if isinstance(recv, list) and isinstance(args[0], int):
+            if not (0 <= args[0] < len(recv)):
+                raise Panic("remove-out-of-bounds", node.get("l"))
+            return recv.pop(args[0])
+        if isinstance(recv, dict) and not isinstance(recv, StructVal):
+            return some(recv.pop(args[0])) if args[0] in recv else None
+        return NotImplemented
+    hooks["remove"] = h_remove
+
+    def swap_remove(ev, recv, args, node, env):
+        if isinstance(recv, list) and isinstance(args[0], int):
+            if not (0 <= args[0] < len(recv)):
+                raise Panic("swap_remove-out-of-bounds", node.get("l"))
+            v = recv[args[0]]
+            recv[args[0]] = recv[-1]
+            recv.pop()
+            return v
+        return NotImplemented
+    hooks["swap_remove"] = swap_remove
+
+    def retain(ev, recv, args, node, env):
+        if isinstance(recv, list) and args and isinstance(args[0], tuple) and args[0][0] == "closure":
+            recv[:] = [x for x in recv if closure_call(ev, args[0], [x], env)]
+            return ()
+        return NotImplemented
+    hooks["retain"] = retain
+    n = 0
+    for ty, mk in (("RelationMap", lambda: []), ("RelationBTreeMap", lambda: {})):
+        ins = [f for f in syn.fns if f.name == "insert" and f.file == "src/store.rs" and (f.self_ty or "").startswith(ty + "<") and f.trait is None]
+        rem = [f for f in syn.fns if f.name == "remove" and f.file == "src/store.rs" and (f.self_ty or "").startswith(ty + "<") and f.trait is None]
+        if len(ins) != 1 or len(rem) != 1:
+            ctx.anchor_missing(r, "%s::insert / remove" % ty)
+            continue
+        ins, rem = ins[0], rem[0]
+        ctx.functions_analysed.update([ins.qual, rem.qual])
+
+        def row(m, x):
+            d = m["data"]
+            if isinstance(d, list):
+                return list(d[x]) if x < len(d) else []
+            return list(d.get(x, []))
+
+        def do(f, m, *args):
+            params = [p["pat"].get("name") for p in f.sig["inputs"]]
+            Evaluator(hooks=hooks).run_body(f.body, dict([("self", m)] + list(zip(params, args))))
+        try:
+            m = StructVal(ty, {"data": mk()})
+            for y in (1, 3, 3, 4, 7, 7, 7, 9):
+                do(ins, m, 2, y)
+            got = row(m, 2)
+            n += 1
+            r.hit("%s:insert" % ty, sample={"map": ty, "inserted": [1, 3, 3, 4, 7, 7, 7, 9], "row": got})
+            if got != [1, 3, 4, 7, 9]:
+                ctx.report(r, "%s:insert" % ty, "%s::insert of the handles 1,3,3,4,7,7,7,9 (an annotation naming the same item through several sub-selectors repeats its own handle) leaves the row %s; each referrer must be listed once, in handle order" % (ty, got), ins.file, ins.line)
+            for victim, want in ((3, [1, 4, 7, 9]), (1, [4, 7, 9]), (5, [4, 7, 9]), (9, [4, 7])):
+                do(rem, m, 2, victim)
+                got = row(m, 2)
+                n += 1
+                r.hit("%s:remove:%d" % (ty, victim), sample={"map": ty, "removed": victim, "row": got})
+                if got != want:
+                    ctx.report(r, "%s:remove" % ty, "%s::remove(.., %d) leaves the row %s, expected %s: removal must drop exactly that referrer and keep the others in handle order (the rows are handed out as sorted collections)" % (ty, victim, got, want), rem.file, rem.line)
+                    break
+            do(rem, m, 5, 1)   # a row that does not exist
+            n += 1
+        except (Unknown, Panic) as e:
+            ctx.report(r, "%s:unevaluated" % ty, "%s::insert/remove could not be evaluated (%s): the row discipline is not established" % (ty, e), ins.file, ins.line)
+    ctx.floor(r, n, 12, "row operations evaluated")
